@@ -61,6 +61,9 @@ impl Campaign for C06c {
         }
     }
     fn generate(&self, rng: &mut Rng, index: u64, _tier: Tier) -> Scenario {
+        if index % 5 == 4 {
+            return super::universal::gen_universal(rng, index, false);
+        }
         let mut sc = Scenario::new();
         let mut k = rng.sub("knobs");
         sc.knobs.strategy = strategy(&mut k);
@@ -176,6 +179,9 @@ impl Campaign for C06c {
     }
 
     fn check(&self, sc: &Scenario, out: &RunOut) -> Verdict {
+        if sc.note.starts_with("universal") {
+            return super::universal::universal_verdict("C06", sc, out);
+        }
         let mut v = Verdict::default();
         let deliv = delivered(&out.obs);
         let main = match snap(out, "main") {
